@@ -217,3 +217,90 @@ move=> Hok; rewrite mxE.
 have := @entries_bounded D n draws sdraws perm i j Hok.
 move=> /(_ (ssrnat.ltP (ltn_ord i)) (ssrnat.ltP (ltn_ord j))); lia.
 Qed.
+
+(* ---------------------------------------------------------------- 5. descent direction (used by C06) *)
+
+(* If the rows of M positively span, every non-zero "gradient" g has a row d of M with g . d < 0. *)
+Section Descent.
+Variables (F : realFieldType) (m D : nat) (M : 'M[F]_(m, D)).
+Hypothesis span : forall v : 'rV[F]_D,
+  exists c : 'rV[F]_m, (forall k, 0 <= c 0 k) /\ v = c *m M.
+
+Lemma dot_self_gt0 (g : 'rV[F]_D) : g != 0 -> 0 < (g *m g^T) 0 0.
+Proof.
+move=> /rV0Pn [j gj]; rewrite mxE (bigD1 j) //=; apply: ltr_spaddl.
+- by rewrite mxE -expr2 lt0r sqrf_eq0 gj sqr_ge0.
+- by apply: sumr_ge0 => i _; rewrite mxE -expr2 sqr_ge0.
+Qed.
+
+Lemma descent_dir (g : 'rV[F]_D) : g != 0 ->
+  exists k : 'I_m, (g *m (row k M)^T) 0 0 < 0.
+Proof.
+move=> g0; have [c [c0 Hc]] := span (- g).
+have Hneg : (g *m (- g)^T) 0 0 < 0.
+  by rewrite linearN /= mulmxN mxE oppr_lt0 dot_self_gt0.
+have E : (g *m (- g)^T) 0 0 = \sum_k c 0 k * (g *m (row k M)^T) 0 0.
+  rewrite Hc trmx_mul mulmxA mxE; apply: eq_bigr => k _.
+  rewrite mulrC; congr (_ * _); first by rewrite mxE.
+  by rewrite !mxE; apply: eq_bigr => j _; rewrite !mxE.
+apply/existsP; rewrite -[[exists k, _]]negbK negb_exists; apply/negP => /forallP H.
+move: Hneg; rewrite E ltNge sumr_ge0 // => k _; apply: mulr_ge0 => //.
+by rewrite leNgt H.
+Qed.
+End Descent.
+
+Theorem dirs_descent D n draws sdraws perm :
+  choices_ok D n draws sdraws perm ->
+  forall g : 'rV[rat]_D, g != 0 ->
+  exists k : 'I_(D + D),
+    (g *m (row k (map_mx ZtoQ (mx_of (D + D) D (poll_dirs (poll_basis D n draws sdraws perm)))))^T) 0 0 < 0.
+Proof. by move=> Hok g g0; apply: descent_dir g0; exact: dirs_positive_span Hok. Qed.
+
+(* default mesh (n = 1): every generated direction is a signed coordinate vector *)
+Lemma ZtoQ_abs1 (z : Z) : Z.abs z = 1%coqZ -> `|ZtoQ z| = 1.
+Proof.
+case: z => [ | p | p] //= [->].
+- by rewrite (rmorph1 [rmorphism of ZtoQ]) normr1.
+- by rewrite (rmorphN1 [rmorphism of ZtoQ]) normrN1.
+Qed.
+
+Lemma default_dirs_coordinate D draws sdraws perm (k : 'I_(D + D)) :
+  choices_ok D 1%coqZ draws sdraws perm ->
+  let M := map_mx ZtoQ (mx_of (D + D) D (poll_dirs (poll_basis D 1%coqZ draws sdraws perm))) in
+  exists i : 'I_D, `|M k i| = 1 /\ forall j : 'I_D, j != i -> M k j = 0.
+Proof.
+move=> Hok /=; set B := poll_basis D 1%coqZ draws sdraws perm.
+have HL : List.length B = D by rewrite /B poll_basis_length.
+have [_ Hrow] := default_is_coordinate D draws sdraws perm Hok.
+have Hent (a : nat) (s : bool) : (a < D)%N ->
+    (forall j : 'I_D, entry (poll_dirs B) k j = (if s then - entry B a j else entry B a j)%coqZ) ->
+    exists i : 'I_D,
+      `|(map_mx ZtoQ (mx_of (D + D) D (poll_dirs B))) k i| = 1 /\
+      forall j : 'I_D, j != i ->
+        (map_mx ZtoQ (mx_of (D + D) D (poll_dirs B))) k j = 0.
+  move=> /ssrnat.ltP Ha Hk; have [i0 [/ssrnat.ltP Hi0 [Habs Hz]]] := Hrow a Ha.
+  exists (Ordinal Hi0); split.
+  - by rewrite !mxE Hk /=; apply: ZtoQ_abs1; case: s {Hk}; rewrite ?Z.abs_opp.
+  - move=> j' Hj'; rewrite !mxE Hk.
+    have -> : entry B a j' = 0%coqZ.
+      apply: Hz; first exact: (ssrnat.ltP (ltn_ord j')).
+      by move=> E; move: Hj'; rewrite -val_eqE /= E eqxx.
+    by case: s {Hk}; rewrite /= (rmorph0 [rmorphism of ZtoQ]).
+case: (ltnP k D) => Hk.
+- apply: (Hent k false) => // j.
+  by rewrite poll_dirs_upper // HL; apply/ssrnat.ltP.
+- have Hk' : (k - D < D)%N by rewrite ltn_subLR // -/(addn D D) ltn_ord.
+  apply: (Hent (k - D)%N true) => // j.
+  by rewrite -[in LHS](subnKC Hk) -{1}HL poll_dirs_lower.
+Qed.
+
+Theorem dirs_descent_default D draws sdraws perm :
+  choices_ok D 1%coqZ draws sdraws perm ->
+  let M := map_mx ZtoQ (mx_of (D + D) D (poll_dirs (poll_basis D 1%coqZ draws sdraws perm))) in
+  forall g : 'rV[rat]_D, g != 0 ->
+  exists (k : 'I_(D + D)) (i : 'I_D),
+    (g *m (row k M)^T) 0 0 < 0 /\ `|M k i| = 1 /\ forall j : 'I_D, j != i -> M k j = 0.
+Proof.
+move=> Hok M g g0; have [k Hk] := dirs_descent Hok g0.
+by have [i Hi] := default_dirs_coordinate k Hok; exists k, i.
+Qed.
